@@ -9,13 +9,16 @@ from lib.bounded import BObl
 
 def docs():
     # (text, expected endpoints [(table1 full name, col, table2 full name, col)], expected group items)
-    for sch_other in ('public', 's2'):
-        for ref_form in ('short', 'block', 'inline'):
-            for addr in ('qualified', 'bare'):
+    for sch_other, ref_form, addr, order in itertools.product(('public', 's2'), ('short', 'block', 'inline'),
+                                                              ('qualified', 'bare'), ('alias-first', 'name-first')):
+        if True:
+            if True:
                 other = 'users' if sch_other == 'public' else 's2.users'
                 o_full = f'{sch_other}.users'
-                head = (f'Table {"app.accounts"} as users {{\n  id int\n  uid int\n}}\n'
-                        f'Table {other} {{\n  id int\n  aid int{{INLINE}}\n}}\n')
+                blocks = [f'Table {"app.accounts"} as users {{\n  id int\n  uid int\n}}\n',
+                          f'Table {other} {{\n  id int\n  aid int{{INLINE}}\n}}\n']
+                # the declaration order of the two tables must not matter (the alias never shadows a full name)
+                head = ''.join(blocks if order == 'alias-first' else reversed(blocks))
                 target = {'qualified': f'{sch_other}.users', 'bare': 'users'}[addr]
                 if sch_other != 'public' and addr == 'bare':
                     # bare `users` is then only the alias: it addresses app.accounts
@@ -33,6 +36,12 @@ def docs():
                 yield {'text': text, 'expect': exp, 'group': None}
     yield {'text': 'Table a as b {\n id int\n}\nTable b {\n id int\n}\nTableGroup g {\n public.b\n a\n}\n',
            'expect': [], 'group': ['public.b', 'public.a']}
+    yield {'text': 'Table b {\n id int\n}\nTable a as b {\n id int\n}\nTableGroup g {\n public.b\n b\n a\n}\n',
+           'expect': [], 'group': ['public.b', 'public.b', 'public.a'], 'dup_group': True}
+    yield {'text': 'Table b {\n id int\n}\nTable a as b {\n id int\n}\nTableGroup g {\n b\n a\n}\n',
+           'expect': [], 'group': ['public.b', 'public.a']}
+    yield {'text': 'Table b {\n id int\n}\nTable a as b {\n id int\n}\nRef: public.b.id > a.id\n',
+           'expect': [('public.b', 'id', 'public.a', 'id')], 'group': None}
     yield {'text': 'Table a as b {\n id int\n}\nTable b {\n id int\n}\nRef: public.b.id > a.id\nRef: b.id < public.a.id\n',
            'expect': [('public.b', 'id', 'public.a', 'id'), ('public.b', 'id', 'public.a', 'id')], 'group': None,
            'skip_dup': True}
@@ -47,7 +56,7 @@ class AliasShadow(BObl):
 
     def cases(self, tier, seed):
         for d in docs():
-            if d.get('skip_dup'):
+            if d.get('skip_dup') or d.get('dup_group'):
                 continue
             yield d
 
